@@ -71,6 +71,9 @@ class LimitTables(Space):
         for centre in ('peak', 'trough'):
             df = mk_table(sides, centre)
             # row index as left by earlier steps: default, offset labels (a slice), duplicate labels (a concatenation)
+            if sum(sides) % 4 == 3:
+                df['Label'] = 'chan-1'
+                df = df[list(df.columns[::-1])]
             ik = (sum(sides) + (centre == 'trough')) % 3
             if ik == 1:
                 df.index = range(7, 7 + len(df))
